@@ -349,6 +349,8 @@ UNDECIDED_VIEWS = {
     'wire::ieee802154::Frame': "addressing / auxiliary-security accessors are meaningful only for particular combinations of "
                                "frame type, frame version, two addressing modes, PAN-id compression and the security bit; "
                                "check_len mirrors that 5-way dependency and the comparison is outside the partition engine (cap 96)",
+    'wire::rpl::options::Packet': "(feature proto-rpl, thorough cfg B only) check_len computes a per-option-type `required` length in a match and "
+                                  "compares once afterwards; the partition engine does not carry the match arm through that join",
 }
 
 
